@@ -27,6 +27,7 @@ META = {
         "A second family retries two different messages (own task id, labels, outcome sequence, max_retries) through one "
         "middleware instance with their attempts interleaved and checks each against the same reference (no cross-talk). "
         "states = distinct (configuration, attempt number, stored results) prefixes reached, transitions = task executions."
+        " 'X' attempts fail by raising one and the same exception object in every attempt and every case of the process."
     ),
     "assumptions": ["single worker, messages are processed in the order they were kicked"],
     "required_counters": ["cases", "cases_with_retry", "cases_budget_exhausted", "pair_cases"],
@@ -37,6 +38,10 @@ SEQS: List[Tuple[str, ...]] = [tuple("F" * k + x) for k in range(MAX_ATTEMPTS) f
 # 'C' = the attempt fails with asyncio.CancelledError raised from the task body (a failure like any other)
 # 'R' = the attempt fails by rejecting the message (Context.reject() -> TaskRejectedError), also a failure
 SEQS += [tuple("CS"), tuple("FCS"), tuple("CCCC"), tuple("CFN"), tuple("RS"), tuple("RRS"), tuple("FRRR")]
+# 'X' = the attempt fails by raising one and the same exception *object* every time, in every case of the
+# process (a module-level constant, a failed future awaited again): a failure like any other
+SEQS += [tuple("XS"), tuple("XXS"), tuple("XXXS"), tuple("XXXX"), tuple("XFXS"), tuple("XXN")]
+SHARED_FAILURE = ValueError("attempt failed")
 MAXR = [("int", m) for m in range(7)] + [("str", m) for m in range(7)] + [("default", m) for m in range(7)]
 ROE = [("bool", True), ("bool", False), ("str", "True"), ("str", "true"), ("str", "False"), ("default", True), ("default", False)]
 
@@ -118,6 +123,8 @@ def run_case(case: Tuple[Any, ...], acc: Acc, seen: set) -> None:
             raise asyncio.CancelledError()
         if o == "R":
             ctx.reject()
+        if o == "X":
+            raise SHARED_FAILURE
         raise ValueError("attempt failed")
 
     job.__module__ = "mc.props.c11"
@@ -157,15 +164,15 @@ def run_case(case: Tuple[Any, ...], acc: Acc, seen: set) -> None:
     acc.count("cases")
     # ---- reference model
     enabled = roe if roe_kind != "str" else (roe.lower() == "true")
-    first_nonfail = next((i + 1 for i, o in enumerate(seq) if o not in "FCR"), None)
-    if not enabled or seq[0] not in "FCR":
+    first_nonfail = next((i + 1 for i, o in enumerate(seq) if o not in "FCRX"), None)
+    if not enabled or seq[0] not in "FCRX":
         want = 1
     else:
         want = min(first_nonfail if first_nonfail is not None else 10**9, max(1, mr))
     final = seq[want - 1] if want - 1 < len(seq) else "F"
     if want > 1:
         acc.count("cases_with_retry")
-    if enabled and seq[0] in "FCR" and final in "FCR" and want == max(1, mr) and mr >= 2:
+    if enabled and seq[0] in "FCRX" and final in "FCRX" and want == max(1, mr) and mr >= 2:
         acc.count("cases_budget_exhausted")
     want_stored = (0 if nror else want - 1) + (0 if final == "N" else 1)
     acc.outcome((want, final, nror, want_stored))
@@ -199,7 +206,7 @@ def run_case(case: Tuple[Any, ...], acc: Acc, seen: set) -> None:
 
         ok = (
             (final == "S" and not res.is_err and res.return_value == "done")
-            or (final == "F" and res.is_err and isinstance(res.error, ValueError))
+            or (final in "FX" and res.is_err and isinstance(res.error, ValueError))
             or (final == "C" and res.is_err and isinstance(res.error, _aio.CancelledError))
             or (final == "R" and res.is_err and type(res.error).__name__ == "TaskRejectedError")
         )
@@ -340,6 +347,12 @@ def replay(obj: Dict[str, Any]) -> int:
         run_pair(((tuple(a[0]), a[1]), (tuple(b[0]), b[1]), obj["pair"][1]), acc)
     else:
         run_case(tup(obj["case"]), acc, set())
+        if not acc.violations:
+            # the check runs its cases one after the other in one process: a violation may depend on what an
+            # earlier case left behind (e.g. on the shared exception object); the closest predecessor
+            # is the same case, so run it a second time
+            print("(no violation on the first run in a fresh process; running the same case again in this process)")
+            run_case(tup(obj["case"]), acc, set())
     for k, v in acc.violations.items():
         print("oracle:", k, "-", v["message"])
     return 1 if acc.violations else 0
